@@ -79,6 +79,7 @@ pub const INDEX_OPS: &[&str] = &[
     "special_filter",
     "special_sets",
     "special_casts",
+    "special_wide",
 ];
 
 /// rendering with indentation is quadratic in depth; keep the output below ~1 GB
@@ -572,6 +573,28 @@ fn run_special(op: &str) -> String {
                 let _ = (jsonb::as_f64(a), jsonb::as_i64(a), jsonb::as_u64(a), jsonb::to_f64(a).is_ok(), jsonb::to_i64(a).is_ok(), jsonb::to_u64(a).is_ok(), jsonb::to_bool(a).is_ok(), jsonb::to_serde_json(a).is_ok());
             }
             let _ = jsonb::to_serde_json(&doc).is_ok();
+        }
+        // extreme WIDTH: 65,537 identical items, 65,537 identical strings, 65,537 distinct numbers
+        "special_wide" => {
+            let same = mval::encode(&MVal::Arr((0..65_537).map(|_| MVal::U64(7)).collect()));
+            let strs = mval::encode(&MVal::Arr((0..65_537).map(|_| MVal::s("k")).collect()));
+            let distinct = mval::encode(&MVal::Arr((0..65_537u64).map(MVal::U64).collect()));
+            for w in [&same, &strs, &distinct] {
+                let _ = jsonb::array_intersection(w, w, &mut out);
+                let _ = jsonb::array_except(w, w, &mut out);
+                let _ = jsonb::array_overlap(w, w);
+                let _ = jsonb::array_distinct(w, &mut out);
+                let _ = jsonb::delete_by_name(w, "k", &mut out);
+                let _ = jsonb::concat(w, w, &mut out);
+                let _ = jsonb::compare(w, w);
+                let _ = jsonb::contains(w, w);
+                let _ = jsonb::to_string(w);
+                jsonb::convert_to_comparable(w, &mut out);
+                let _ = jsonb::get_by_path(w, jp::JsonPath { paths: vec![jp::Path::Root, jp::Path::BracketWildcard] }, &mut out, &mut offs);
+                let _ = jsonb::from_slice(w).map(|v| v.to_vec());
+                out.clear();
+                offs.clear();
+            }
         }
         other => return format!("harness:unknown_special:{other}"),
     }
